@@ -1092,6 +1092,55 @@ func c01Crash(c *Ctx, idx int) CaseResult {
 	return res
 }
 
+// ---------- C02 under recovery: the bound holds in the process that resumes the plan ----------
+
+func c02Crash(c *Ctx, idx int) CaseResult {
+	res := CaseResult{Counters: map[string]int{}}
+	r := gen.Rand(c.Seed, "C02crash", idx)
+	ps := spec.Plan{Name: "p0"}
+	for bi := 0; bi < 1+r.Intn(2); bi++ {
+		blk := spec.Block{Conc: r.Intn(3), Tol: -1 + r.Intn(2)*r.Intn(3)} // 0 = unset (1)
+		for si := 0; si < 3+r.Intn(4); si++ {
+			var sq spec.Seq
+			for ai := 0; ai < 1+r.Intn(2); ai++ {
+				sq.Actions = append(sq.Actions, spec.Action{Steps: step(r.Intn(8) != 0, 600+r.Intn(1500))})
+			}
+			blk.Seqs = append(blk.Seqs, sq)
+		}
+		ps.Blocks = append(ps.Blocks, blk)
+	}
+	ps.AssignTags()
+	var first any
+	cp := exploreCrashes(&ps, r, 1<<30, &res, func(sk *spec.PlanView, rec *crash.Recovery, t *oracle.Trace, second bool, k, j int) {
+		if rec == nil || !rec.Returned || sk.Status("P") != spec.Running {
+			return
+		}
+		res.Counters["recoveries"]++
+		o := oracle.C02(&ps, rec.Events, t.PlanID)
+		vs := o.Viols
+		for i := range vs {
+			vs[i].Sig = strings.Replace(vs[i].Sig, "C02/", "C02/recovered/", 1)
+			vs[i].Msg = "[process that resumed the plan after a crash at write " + fmt.Sprint(k) + "] " + vs[i].Msg
+		}
+		if len(vs) > 0 && first == nil {
+			first = map[string]any{"k": k, "durable_state": describeSk(sk), "recovery_events": rec.Events}
+		}
+		res.Viols = append(res.Viols, vs...)
+		res.Counters["recovered_blocks_with_sequences"] += o.Blocks
+	})
+	if cp != nil {
+		res.Nontriv = hashStr(fmt.Sprint("crash", ps))
+		res.ISig = res.Nontriv
+		if idx%100 == 24 {
+			res.Sample = map[string]any{"mode": "concurrency bound in the process that resumes the plan, every crash point", "plan": ps, "writes": cp.NW}
+		}
+	}
+	if len(res.Viols) > 0 {
+		res.Witness = map[string]any{"plan": ps, "first": first}
+	}
+	return res
+}
+
 // ---------- C04 under recovery: what Wait returns in the process that resumed the plan ----------
 
 // crashPreContPlan: a scope whose pre-checks fail (or pass slowly) while the first run of its continuous checks,
